@@ -51,6 +51,9 @@ func TestC17(t *testing.T) {
 		for _, p := range hx.AllProtos {
 			cases = append(cases, mon.CaseSpec{Name: "outcome/" + p, Spec: spec{Kind: "outcome", Pat: p}})
 		}
+		for _, p := range []string{"xsurveyor", "xpub", "xbus", "xstar", "surveyor", "pub", "bus", "star"} {
+			cases = append(cases, mon.CaseSpec{Name: "rawfan/" + p, Spec: spec{Kind: "rawfan", Pat: p, N: r.Pick(1500, 4000)}})
+		}
 		cases = append(cases, mon.CaseSpec{Name: "reqretain", Spec: spec{Kind: "reqretain", N: 3 + rnd.Intn(3)}})
 		cases = append(cases, mon.CaseSpec{Name: "newmsg", Spec: spec{Kind: "newmsg"}})
 	}
@@ -70,6 +73,8 @@ func TestC17(t *testing.T) {
 			runReuseBuf(c, sp)
 		case "outcome":
 			runOutcome(c, sp)
+		case "rawfan":
+			runRawFan(c, sp)
 		case "reqretain":
 			runReqRetain(c, sp)
 		case "newmsg":
@@ -610,6 +615,13 @@ func runOutcome(c *mon.Case, sp spec) {
 			m.Header = append(m.Header, 0, 0, 0, 0)
 		case "xreq", "xsurveyor":
 			m.Header = append(m.Header, 0x80, 0, 0, 9)
+		case "xrep", "xrespondent":
+			// a reply is addressed by the pipe id leading its header (none while no peer is attached)
+			var id uint32
+			if ps := w.Pipes(); len(ps) > 0 {
+				id = ps[len(ps)-1].ID()
+			}
+			m.Header = append(m.Header, byte(id>>24), byte(id>>16), byte(id>>8), byte(id), 0x80, 0, 0, 9)
 		}
 	}
 	outcomes := map[string]int{}
@@ -666,8 +678,81 @@ func runOutcome(c *mon.Case, sp spec) {
 	// 6. the peer goes away mid-traffic
 	vp.Drop()
 	try("peer-dropped", 4)
+	// 6b. sends with no deadline parked behind a silent peer; the peer goes away while they wait,
+	// then the socket closes under whatever is still waiting (for a peer)
+	type parked struct {
+		k *mon.Call
+		m *mangos.Message
+		b []byte
+	}
+	var pk []parked
+	if hx.WaitDetached(c, w, 1, "dropped vt peer") {
+		vp2 := L.Connect()
+		if hx.WaitAttached(c, w, 2, "second vt peer") {
+			vp2.HoldSends()
+			s.SetOption(mangos.OptionSendDeadline, time.Duration(0))
+			for i := 0; i < 8; i++ {
+				b := body(uint32(9500+i), sizeFor(c.Rand, i))
+				m := mangos.NewMessage(len(b))
+				m.Body = append(m.Body, b...)
+				hdr(m)
+				pk = append(pk, parked{mon.Go("SendMsg", func() (interface{}, error) { return nil, s.SendMsg(m) }), m, b})
+			}
+			settled := func() bool {
+				for _, q := range pk {
+					if !q.k.Done() && !q.k.ParkedIn("SendMsg") {
+						return false
+					}
+				}
+				return true
+			}
+			mon.Await(settled, mon.AwaitOpts{Watchdog: 3 * time.Second})
+			nparked := 0
+			for _, q := range pk {
+				if !q.k.Done() {
+					nparked++
+				}
+			}
+			c.Count("sends_parked_behind_silent_peer", nparked)
+			vp2.Drop()
+			hx.WaitDetached(c, w, 2, "second vt peer dropped")
+			mon.Await(func() bool {
+				for _, q := range pk {
+					if !q.k.Done() {
+						return false
+					}
+				}
+				return true
+			}, mon.AwaitOpts{Watchdog: 300 * time.Millisecond}) // (not a verdict: only which outcome column the result is counted in)
+			for i := range pk {
+				if q := pk[i]; q.k.Done() && q.m != nil {
+					_, err, _ := q.k.Result()
+					outcomes["parked-peer-dropped:"+errName2(err)]++
+					if err != nil {
+						checkReturned(c, p+"/parked-peer-dropped", q.m, q.b, err)
+						q.m.Free()
+					}
+					pk[i].m = nil
+				}
+			}
+		}
+	}
 	// 7. closed socket
 	s.Close()
+	for _, q := range pk {
+		if q.m == nil {
+			continue
+		}
+		if !c.AwaitOrViolate("owner/send-stuck:"+p+"/parked-closed", p+": SendMsg parked at Close returning", q.k.Done, mon.AwaitOpts{MaxTimer: 10 * time.Millisecond}) {
+			return
+		}
+		_, err, _ := q.k.Result()
+		outcomes["parked-closed:"+errName2(err)]++
+		if err != nil {
+			checkReturned(c, p+"/parked-closed", q.m, q.b, err)
+			q.m.Free()
+		}
+	}
 	try("closed", 3)
 	for k, v := range outcomes {
 		c.Count("outcome_"+k, v)
